@@ -150,7 +150,7 @@ def make_cases(tier, profile):
         cases.append(dict(name=l, line=l, judges=J, split=split,
                           spec=dict(plain_chans=plain, sym_modes=False, sym_away=False, sym_ranks=False, sym_caps=False, sym_topic=True,
                                     nicks=['alice', 'bob', 'carol'] if tier == 'quick' else ['alice', 'bob', 'carol', 'erin'],
-                                    masks=['a*!*@*', 'bob!*@*'] if tier == 'quick' else ['a*!*@*', 'bob!*@*', '*!~alice@*'])))
+                                    masks=['a*!*@*', 'bob!*@*'] if tier == 'quick' else ['a*!*@*', 'bob!*@*', '*!~ualice@*'])))
     return cases
 
 BOUNDS = dict(universe='3 users (4 thorough), channels #x and &y (+ names that do not exist), memberships, i/m/s/t/n flags, key presence, '
